@@ -21,7 +21,7 @@ import random
 
 from .core import AnalysisError, Checker
 from .gadgets import GadgetBench
-from .interp import InterpRaise
+from .interp import Host, InterpRaise
 from .tables import Denotations
 from . import semantics
 
@@ -311,6 +311,114 @@ def fold_bit_counters(ck: Checker, rule: str, bench: NumBench | None = None):
 SUB = ARITH + '.subtraction'
 DIV = ARITH + '.div_mod'
 SQRT = ARITH + '.sqrt'
+
+
+
+class _CircuitNS(Host):
+    """Stand-in for the name `Circuit` inside the generators' module: the two constructors the generate_* wrappers use."""
+
+    def __init__(self, input_type):
+        self._input_type = input_type
+
+    def __call__(self):
+        from .rewrites import FakeCircuit
+        return FakeCircuit(self._input_type)
+
+    def bare_circuit_with_labels(self, labels, *, set_as_outputs=False):
+        c = self()
+        c.add_inputs(list(labels))
+        if set_as_outputs:
+            c.set_outputs(list(labels))
+        c.log.clear()
+        return c
+
+    def bare_circuit(self, input_size, *, prefix='', set_as_outputs=False):
+        return self.bare_circuit_with_labels([f'{prefix}{i}' for i in range(input_size)], set_as_outputs=set_as_outputs)
+
+
+AIG_TYPES = {'INPUT', 'NOT', 'IFF', 'AND', 'OR', 'NAND', 'NOR', 'GT', 'LT', 'GEQ', 'LEQ', 'LNOT', 'RNOT', 'LIFF', 'RIFF', 'ALWAYS_TRUE', 'ALWAYS_FALSE'}
+XAIG_TYPES = AIG_TYPES | {'XOR', 'NXOR'}
+
+
+def fold_basis(ck: Checker, rule: str, bench: NumBench | None = None):
+    """Every function of the summation module that takes `basis`, instantiated with the basis spelled as a string (upper and
+    lower case) and as the enum member, for a range of sizes: only gates of the requested basis are created (and the result is
+    right -- the bit count / the weighted sum)."""
+    bench = bench or NumBench(ck.repo)
+    it = bench.B.interp
+    m = ck.repo.mod(SUM)
+    ns = _CircuitNS(bench.T['INPUT'])
+    it.overrides['cirbo.core.circuit.circuit.Circuit'] = ns
+    it.overrides['cirbo.core.circuit.Circuit'] = ns
+    it._globals_cache.clear()
+    try:
+        GB = it.global_value(m, 'GenerationBasis')
+        members = dict(GB.members)
+    except (AnalysisError, AttributeError):
+        members = {}
+    spellings = [('AIG', 'AIG'), ('aig', 'AIG'), ('XAIG', 'XAIG'), ('xaig', 'XAIG')] + [(members[k], k) for k in ('AIG', 'XAIG') if k in members]
+    weight_vectors = [[0, 0], [0, 0, 0], [0, 1, 1], [0, 0, 0, 0], [1, 0, 1, 0, 0], [2, 0, 0, 1, 1, 0], [0, 0, 0, 0, 0, 0, 0]]
+    import ast as _ast
+    n_fn = 0
+    for q, fn in m.functions.items():
+        if '.' in q or q.startswith('_'):
+            continue
+        params = [a.arg for a in fn.args.args + fn.args.kwonlyargs]
+        if 'basis' not in params:
+            continue
+        n_fn += 1
+        first = params[0]
+        takes_circuit = first == 'circuit'
+        arg = params[1] if takes_circuit else first
+        weighted = 'pow' in arg or 'weight' in arg
+        if not weighted and not (arg == 'n' or 'label' in arg):
+            ck.notes.setdefault('structural_rules_not_applicable', []).append(f'basis sweep: {q}({", ".join(params)}) has a parameter list the sweep does not know')
+            continue
+        probs, n_inst = [], 0
+        for spelled, name in spellings:
+            allowed = AIG_TYPES if name == 'AIG' else XAIG_TYPES
+            for case in (weight_vectors if weighted else [1, 2, 3, 4, 5, 6, 7]):
+                n_inst += 1
+                n = len(case) if weighted else case
+                tag = f'{q}({case}, basis={spelled if isinstance(spelled, str) else "GenerationBasis." + name})'
+                try:
+                    if takes_circuit:
+                        c, names = bench.host(n)
+                        a = [(w, l) for w, l in zip(case, names)] if weighted else list(names)
+                        res = bench.run(SUM, q, c, a, basis=spelled)
+                    else:
+                        it.steps = 0
+                        from .interp import RepoFunc
+                        c = RepoFunc(it, m, fn)(list(case) if weighted else n, basis=spelled)
+                        names = list(c._inputs)
+                        res = [(None, l) for l in c._outputs] if weighted else list(c._outputs)
+                except InterpRaise as e:
+                    probs.append(f'{tag} raises {e.exc_name}')
+                    continue
+                used = {g.gate_type.var for l, g in c._gates.items() if l not in names and l != 'own'}
+                if not used <= allowed:
+                    probs.append(f'{tag} creates {sorted(used - allowed)} gates, outside the requested basis')
+                    continue
+                # the result is still right in that basis (one operand value per instance is enough here: C07.NUM sweeps the values)
+                vals = [bool((0x5B >> i) & 1) for i in range(n)]
+                v = eval_all(c, dict(zip(names, vals)))
+                if weighted and takes_circuit:
+                    want = sum(int(x) << w for x, w in zip(vals, case))
+                    got = sum(int(v[l]) << lv for lv, l in res)
+                    if got != want:
+                        probs.append(f'{tag}: weighted sum {want} comes out as {got}')
+                elif not weighted and isinstance(res, list) and res and not isinstance(res[0], list):
+                    got = sum(int(v[l]) << i for i, l in enumerate(res))
+                    if got != sum(vals):
+                        probs.append(f'{tag}: {sum(vals)} True operands are counted as {got}')
+            if len(probs) > 3:
+                break
+        ck.check(not probs, rule, m, fn, f'{q}: with the basis given as \'AIG\', \'aig\', GenerationBasis.AIG (and the same for XAIG) only gates of that basis are created ({n_inst} instances)', '; '.join(probs[:3]),
+                 construct=f'{q} basis sweep')
+    ck.need(n_fn >= 4, f'only {n_fn} public functions of the summation module take a basis (7 on the pinned tree)')
+    it.overrides.pop('cirbo.core.circuit.circuit.Circuit', None)
+    it.overrides.pop('cirbo.core.circuit.Circuit', None)
+    it._globals_cache.clear()
 
 
 def fold_sub_div_sqrt(ck: Checker, rule: str, bench: NumBench | None = None):
